@@ -40,15 +40,24 @@ def bench(name, **kw):
     return b
 
 
-MC_DEFAULT = dict(MaxCmds=4, MaxTime=4, MaxQueue=3, SchedCls=["ev"], EvTargets=["m1", "m2"], Deltas=[1, 2],
-                  AbsTimes=[], Kinds=["once"], Periods=[0], SlotSet=["k1"], DrvProgs=[1], UntilDeltas=[1, 2],
-                  UntilAbs=[], ProcKinds=["event"], ProcTargets=["m1"], Lags=[0], Emit=False)
+def S(target, d, kind="once", per=0, slot="k1", prog=1, cls="ev", abs=False):
+    """A driver scheduling command."""
+    return dict(cls=cls, target=target, abs=abs, d=d, kind=kind, per=per, slot=slot, prog=prog)
 
 
-def mc(**kw):
-    d = dict(MC_DEFAULT)
-    d.update(kw)
-    return d
+def U(d, abs=False):
+    return dict(abs=abs, d=d)
+
+
+def P(target, prog=1, kind="event"):
+    return dict(kind=kind, target=target, prog=prog)
+
+
+def mc(MaxCmds=4, MaxTime=4, MaxQueue=3, sched=(), cancel=(), step=True, until=(), proc=(), lags=(0,),
+       thorough=None):
+    return dict(MaxCmds=MaxCmds, MaxTime=MaxTime, MaxQueue=MaxQueue, SchedCmds=list(sched),
+                CancelSlots=list(cancel), StepOn=step, Untils=list(until), Procs=list(proc), Lags=list(lags),
+                thorough=thorough or {})
 
 
 # C01 / C07: chronological order, same-origin FIFO.  Handlers schedule follow-ups and send to the peer.
@@ -57,8 +66,23 @@ bench("chrono",
             [sched(1, prog=1), sched(1, prog=1)],  # 2: schedule two same-time follow-ups on self
             [send(1, prog=1)],                  # 3: forward to the peer
             [sched(0, prog=1), sched(2, prog=3)]],  # 4: invalid (now) request, then a later forward
-      mc=mc(MaxCmds=4, MaxTime=4, MaxQueue=3, DrvProgs=[1, 2, 3, 4], Deltas=[0, 1, 2], AbsTimes=[1, 2],
-            UntilDeltas=[0, 1, 2], UntilAbs=[1], ProcTargets=["m1"]))
+      mc=mc(MaxCmds=4, MaxTime=4, MaxQueue=3,
+            sched=[S("m1", 1), S("m1", 2, prog=2), S("m2", 1, prog=3), S("m1", 2, abs=True), S("m2", 0),
+                   S("m1", 1, prog=4)],
+            until=[U(0), U(1), U(2), U(1, abs=True)], proc=[P("m1", 2), P("m2", 3)],
+            thorough=dict(MaxCmds=5)))
+
+# C07: several same-deadline events of one origin, mixed kinds, two origins.
+bench("fifo",
+      prog=[[NOP],
+            [sched(2, prog=1), sched(2, prog=4, kind="keyed", slot="k2"), sched(2, prog=1)],  # 2
+            [sched(1, prog=1, kind="periodic", per=1), sched(2, prog=4)],                     # 3
+            [NOP]],                                                                           # 4
+      mc=mc(MaxCmds=5, MaxTime=4, MaxQueue=4,
+            sched=[S("m1", 2), S("m1", 2, prog=4), S("m1", 2, kind="keyed", prog=4), S("m1", 1, kind="periodic", per=1),
+                   S("m2", 2)],
+            cancel=["k1"], until=[U(2)], proc=[P("m1", 2), P("m1", 3)],
+            thorough=dict(MaxCmds=6)))
 
 # C09: cancellation.
 bench("cancel",
@@ -67,15 +91,22 @@ bench("cancel",
             [sched(1, prog=1, kind="keyed", slot="k2"), cancel("k1")],  # 3
             [sched(1, prog=1, kind="kperiodic", per=1, slot="k1")],      # 4
             [send(1, prog=2)]],                  # 5: ask the peer to cancel k1
-      mc=mc(MaxCmds=4, MaxTime=4, MaxQueue=3, SchedCls=["ev", "act"], Kinds=["once", "keyed", "kperiodic"],
-            Periods=[1, 2], SlotSet=["k1", "k2"], DrvProgs=[1, 2, 5], Deltas=[1, 2], UntilDeltas=[1, 2],
-            ProcKinds=["event"], ProcTargets=["m1"]))
+      mc=mc(MaxCmds=4, MaxTime=4, MaxQueue=3,
+            sched=[S("m1", 1, prog=2), S("m1", 1, kind="keyed"), S("m1", 2, kind="keyed", slot="k2"),
+                   S("m1", 1, kind="kperiodic", per=1), S(1, 1, kind="keyed", cls="act"),
+                   S(2, 1, kind="kperiodic", per=2, cls="act", slot="k2"), S("m2", 1, prog=5)],
+            cancel=["k1", "k2"], until=[U(2)], proc=[P("m1", 3), P("m1", 4), P("m2", 5)],
+            thorough=dict(MaxCmds=5)))
 
 # C10: periodic series under every partition of the horizon.
 bench("periodic",
       prog=[[NOP], [sched(1, prog=1, kind="periodic", per=2)]],
-      mc=mc(MaxCmds=5, MaxTime=6, MaxQueue=2, Kinds=["periodic"], Periods=[0, 1, 2, 3], DrvProgs=[1],
-            Deltas=[1, 2, 3], UntilDeltas=[0, 1, 2, 3], ProcKinds=["event"], ProcTargets=["m2"], EvTargets=["m1"]))
+      mc=mc(MaxCmds=5, MaxTime=6, MaxQueue=2,
+            sched=[S("m1", 1, kind="periodic", per=1), S("m1", 2, kind="periodic", per=2),
+                   S("m1", 1, kind="periodic", per=3), S("m2", 3, kind="periodic", per=2),
+                   S("m1", 1, kind="periodic", per=0)],
+            until=[U(0), U(1), U(2), U(3)], proc=[P("m2", 2)],
+            thorough=dict(MaxCmds=6, MaxTime=8)))
 
 # C11: every fault kind, then follow-ups.
 bench("faults",
@@ -89,28 +120,41 @@ bench("faults",
             [op("qself")],          # 5: deadlock
             [op("sleep")],          # 6: timeout
             [send(1, prog=5)]],     # 7: make the peer deadlock
-      mc=mc(MaxCmds=4, MaxTime=3, MaxQueue=2, SchedCls=["ev", "act"], EvTargets=["m1", "DEAD", "ORPHAN"],
-            DrvProgs=[1, 2, 3, 4, 5, 6, 7], Deltas=[1], UntilDeltas=[1], UntilAbs=[0],
-            ProcKinds=["event", "query", "action"], ProcTargets=["m1", "DEAD", "ORPHAN"]))
+      mc=mc(MaxCmds=4, MaxTime=3, MaxQueue=2,
+            sched=[S("m1", 1), S("m1", 1, prog=2), S("DEAD", 1), S("ORPHAN", 1), S(2, 1, cls="act"),
+                   S("m1", 1, prog=7)],
+            until=[U(1), U(0, abs=True)],
+            proc=[P("m1", 1), P("m1", 2), P("m1", 3), P("m1", 4), P("m1", 5), P("m1", 6), P("m2", 7),
+                  P("m1", 1, kind="query"), P("DEAD", 1, kind="query"), P("ORPHAN", 1, kind="query"),
+                  P("DEAD", 1), P("ORPHAN", 1), P(2, 1, kind="action"), P(1, 2, kind="action")],
+            thorough=dict(MaxCmds=5)))
 
 # C18: clock synchronisation, scripted lags, with and without tolerance.
 bench("clock", tolerance=1,
       prog=[[NOP], [sched(1, prog=1)]],
-      mc=mc(MaxCmds=4, MaxTime=4, MaxQueue=2, DrvProgs=[1, 2], Deltas=[1, 2], UntilDeltas=[0, 1, 2],
-            Lags=[0, 1, 3], ProcTargets=["m1"]))
+      mc=mc(MaxCmds=4, MaxTime=4, MaxQueue=2,
+            sched=[S("m1", 1), S("m1", 2, prog=2), S("m2", 2)],
+            until=[U(0), U(1), U(2)], proc=[P("m1", 2)], lags=[0, 1, 3],
+            thorough=dict(MaxCmds=5)))
 bench("clock_notol", tolerance=-1,
       prog=[[NOP], [sched(1, prog=1)]],
-      mc=mc(MaxCmds=3, MaxTime=4, MaxQueue=2, DrvProgs=[1, 2], Deltas=[1, 2], UntilDeltas=[0, 1, 2],
-            Lags=[0, 3], ProcTargets=["m1"]))
+      mc=mc(MaxCmds=4, MaxTime=4, MaxQueue=2,
+            sched=[S("m1", 1), S("m1", 2, prog=2)],
+            until=[U(0), U(1), U(2)], proc=[P("m1", 2)], lags=[0, 3]))
 
 # C08: validation matrix.
 bench("validate",
       prog=[[NOP],
             [sched(0), sched(1, kind="periodic", per=0), sched(0, kind="kperiodic", per=0, slot="k2"),
              sched(1, abs=True), sched(2, abs=True)]],
-      mc=mc(MaxCmds=3, MaxTime=3, MaxQueue=3, SchedCls=["ev", "act"], Kinds=["once", "keyed", "periodic", "kperiodic"],
-            Periods=[0, 1], Deltas=[0, 1], AbsTimes=[0, 1, 2], DrvProgs=[1, 2], UntilDeltas=[1],
-            ProcKinds=["event"], ProcTargets=["m1"]))
+      mc=mc(MaxCmds=3, MaxTime=3, MaxQueue=3,
+            sched=[S(t, d, kind=k, per=p, cls=c, abs=a)
+                   for (c, t) in (("ev", "m1"), ("act", 1))
+                   for k in ("once", "keyed", "periodic", "kperiodic")
+                   for p in ((0, 1) if k in ("periodic", "kperiodic") else (0,))
+                   for (a, d) in ((False, 0), (False, 1), (True, 0), (True, 1), (True, 2))],
+            until=[U(1)], proc=[P("m1", 2)],
+            thorough=dict(MaxCmds=4)))
 
 
 def bench_constants(b):
@@ -132,10 +176,14 @@ def write_mc_module(b, workdir, emit=False, overrides=None):
         mcc.update(overrides)
     mod = f"MCc_{name}"
     lines = [f"---- MODULE {mod} ----", "EXTENDS MC_SimCore"] + bench_constants(b)
-    setc = ["SchedCls", "EvTargets", "Deltas", "AbsTimes", "Kinds", "Periods", "SlotSet", "DrvProgs",
-            "UntilDeltas", "UntilAbs", "ProcKinds", "ProcTargets", "Lags"]
-    for c in setc:
-        lines.append(f"c_{c} == {to_tla(set(mcc[c]))}")
+
+    def recset(rs):
+        return "{" + ", ".join(to_tla(r) for r in rs) + "}"
+    lines.append(f"c_SchedCmds == {recset(mcc['SchedCmds'])}")
+    lines.append(f"c_CancelSlots == {to_tla(set(mcc['CancelSlots']))}")
+    lines.append(f"c_Untils == {recset(mcc['Untils'])}")
+    lines.append(f"c_Procs == {recset(mcc['Procs'])}")
+    lines.append(f"c_Lags == {to_tla(set(mcc['Lags']))}")
     lines.append("====")
     os.makedirs(workdir, exist_ok=True)
     with open(os.path.join(workdir, mod + ".tla"), "w") as f:
@@ -143,9 +191,10 @@ def write_mc_module(b, workdir, emit=False, overrides=None):
     cfg = ["SPECIFICATION MCSpec", "CONSTANTS",
            "  ModelSeq <- c_ModelSeq", "  Prog <- c_Prog", "  Conn <- c_Conn", "  SrcConn <- c_SrcConn",
            "  Tolerance <- c_Tolerance", f"  TimeoutOn = {'TRUE' if b['timeout_on'] else 'FALSE'}",
-           f"  MaxCmds = {mcc['MaxCmds']}", f"  MaxTime = {mcc['MaxTime']}", f"  MaxQueue = {mcc['MaxQueue']}"]
-    for c in setc:
-        cfg.append(f"  {c} <- c_{c}")
+           f"  MaxCmds = {mcc['MaxCmds']}", f"  MaxTime = {mcc['MaxTime']}", f"  MaxQueue = {mcc['MaxQueue']}",
+           "  SchedCmds <- c_SchedCmds", "  CancelSlots <- c_CancelSlots", "  Untils <- c_Untils",
+           "  Procs <- c_Procs", "  Lags <- c_Lags",
+           f"  StepOn = {'TRUE' if mcc['StepOn'] else 'FALSE'}"]
     cfg.append(f"  Emit = {'TRUE' if emit else 'FALSE'}")
     cfg += ["CONSTRAINT Bounded", "CHECK_DEADLOCK FALSE", "INVARIANTS",
             "  PendingStrictlyFuture FiresAtDeadline ChronologicalOrder StepPost ExactFirings",
